@@ -473,6 +473,237 @@ impl Scenario for LenWrap {
     }
 }
 
+// ------------------------------------------------------------------ validedge
+
+/// The mirror image of the misuse catalogue: calls exactly ON the legal side of every documented limit.
+/// Each must return normally, in every profile.
+pub struct ValidEdge;
+
+struct VEntry {
+    name: &'static str,
+    run: fn(a: u64, hist: u64) -> Vec<u8>,
+    args: &'static [u64],
+}
+
+mod vcat {
+    use crate::rng::data;
+    use cryptoxide::hashing::{blake2b, blake2s};
+    use cryptoxide::mac::Mac;
+
+    /// ScryptParams::new on the legal boundary: p = floor((2^30 - 1) / r), log_n = min(16 r - 1, cap)
+    pub fn scrypt_params_max_p(a: u64, _h: u64) -> Vec<u8> {
+        let r = a as u32;
+        let p = ((1u64 << 30) - 1) / r as u64;
+        let log_n = (16 * r as u64 - 1).min(20) as u8;
+        let _ = cryptoxide::scrypt::ScryptParams::new(log_n, r, p as u32);
+        let _ = cryptoxide::scrypt::ScryptParams::new(1, r, 1);
+        vec![1]
+    }
+    /// largest legal log_n for small r (constructor only: nothing is allocated)
+    pub fn scrypt_params_max_log_n(a: u64, _h: u64) -> Vec<u8> {
+        let r = a as u32;
+        let log_n = (16 * r - 1).min(40) as u8;
+        let _ = cryptoxide::scrypt::ScryptParams::new(log_n, r, 1);
+        vec![1]
+    }
+    pub fn argon2_setters_max(a: u64, _h: u64) -> Vec<u8> {
+        use cryptoxide::kdf::argon2::Params;
+        let ok = match a {
+            0 => Params::argon2d().parallelism(0xff_ffff).is_ok(),
+            1 => Params::argon2i().parallelism(1).is_ok(),
+            2 => Params::argon2id().iterations(u32::MAX).is_ok(),
+            3 => Params::argon2d().iterations(1).is_ok(),
+            4 => Params::argon2i().version(0x10).is_ok() && Params::argon2i().version(0x13).is_ok(),
+            5 => Params::argon2id().memory_kb(8).is_ok(),
+            _ => Params::argon2id().memory_kb(1).is_ok(), // documented: raised silently to 8 per lane
+        };
+        assert!(ok, "argon2 setter refused an in-range value");
+        vec![ok as u8]
+    }
+    pub fn hkdf_exact_limit(a: u64, _h: u64) -> Vec<u8> {
+        let mut okm = vec![0u8; match a { 0 => 255 * 32, 1 => 255 * 20, _ => 255 * 64 }];
+        match a {
+            0 => cryptoxide::hkdf::hkdf_expand(cryptoxide::sha2::Sha256::new(), &[1; 32], b"info", &mut okm),
+            1 => cryptoxide::hkdf::hkdf_expand(cryptoxide::sha1::Sha1::new(), &[1; 20], b"", &mut okm),
+            _ => cryptoxide::hkdf::hkdf_expand(cryptoxide::sha2::Sha512::new(), &[1; 64], b"info", &mut okm),
+        }
+        okm[okm.len() - 32..].to_vec()
+    }
+    pub fn blake2_limits(a: u64, h: u64) -> Vec<u8> {
+        let w = data(h | 16, (h % 300) as usize);
+        match a {
+            0 => {
+                let mut out = [0u8; 1];
+                blake2b::Context::<1>::new().update(&w).finalize_at(&mut out);
+                out.to_vec()
+            }
+            1 => {
+                let mut out = [0u8; 1];
+                blake2s::Context::<1>::new().update(&w).finalize_at(&mut out);
+                out.to_vec()
+            }
+            2 => {
+                let mut out = [0u8; 64];
+                blake2b::Context::<512>::new_keyed(&[7; 64]).update(&w).finalize_at(&mut out);
+                out.to_vec()
+            }
+            3 => {
+                let mut out = [0u8; 32];
+                blake2s::Context::<256>::new_keyed(&[7; 32]).update(&w).finalize_at(&mut out);
+                out.to_vec()
+            }
+            4 => {
+                let mut out = [0u8; 1];
+                let mut c = blake2b::ContextDyn::new(1);
+                c.update_mut(&w);
+                c.reset_with_key(&[9; 64]);
+                c.update_mut(&w);
+                c.finalize_reset_with_key_at(&[], &mut out);
+                out.to_vec()
+            }
+            5 => {
+                let mut out = [0u8; 32];
+                let mut c = blake2s::ContextDyn::new(32);
+                c.update_mut(&w);
+                c.reset_with_key(&[9; 32]);
+                c.update_mut(&w);
+                c.finalize_reset_with_key_at(&[1; 32], &mut out);
+                out.to_vec()
+            }
+            6 => {
+                let mut out = [0u8; 64];
+                blake2b::Context::<505>::new().update(&w).finalize_at(&mut out);
+                out.to_vec()
+            }
+            _ => {
+                let mut out = [0u8; 32];
+                blake2s::Context::<249>::new().update(&w).finalize_at(&mut out);
+                out.to_vec()
+            }
+        }
+    }
+    pub fn poly_raw_result_sizes(a: u64, h: u64) -> Vec<u8> {
+        let mut p = cryptoxide::poly1305::Poly1305::new(&[3; 32]);
+        p.input(&data(h | 16, (h % 100) as usize));
+        let mut out = vec![0xaau8; a as usize];
+        p.raw_result(&mut out);
+        out[..16].to_vec()
+    }
+    pub fn x25519_try_from_32(a: u64, _h: u64) -> Vec<u8> {
+        use core::convert::TryFrom;
+        let v = [a as u8; 32];
+        let ok = cryptoxide::x25519::SecretKey::try_from(&v[..]).is_ok() && cryptoxide::x25519::PublicKey::try_from(&v[..]).is_ok() && cryptoxide::x25519::SharedSecret::try_from(&v[..]).is_ok();
+        assert!(ok, "x25519 TryFrom refused a 32-byte slice");
+        vec![1]
+    }
+    pub fn empty_inputs(a: u64, _h: u64) -> Vec<u8> {
+        // zero-length data is inside every domain
+        let mut out = Vec::new();
+        match a {
+            0 => {
+                let mut c = cryptoxide::chacha20::ChaCha20::new(&[1; 32], &[0; 12]);
+                c.process(&[], &mut []);
+                c.process_mut(&mut []);
+            }
+            1 => {
+                let mut c = cryptoxide::salsa20::Salsa20::new(&[1; 16], &[0; 8]);
+                c.process(&[], &mut []);
+            }
+            2 => {
+                let mut c = cryptoxide::chacha20poly1305::ChaCha20Poly1305::new(&[1; 16], &[0; 12], &[]);
+                let mut tag = [0u8; 16];
+                c.encrypt(&[], &mut [], &mut tag);
+                out.extend_from_slice(&tag);
+            }
+            3 => {
+                let mut okm = [0u8; 0];
+                cryptoxide::hkdf::hkdf_expand(cryptoxide::sha2::Sha256::new(), &[1; 32], b"", &mut okm);
+            }
+            4 => {
+                let mut d = [0u8; 5];
+                cryptoxide::pbkdf2::pbkdf2(&mut cryptoxide::hmac::Hmac::new(cryptoxide::sha2::Sha256::new(), b""), b"", 1, &mut d);
+                out.extend_from_slice(&d);
+            }
+            _ => {
+                let mut drg = cryptoxide::drg::chacha::Drg::<8>::new(&[0; 32]);
+                drg.fill_slice(&mut []);
+                out.extend_from_slice(&drg.bytes::<4>());
+            }
+        }
+        out
+    }
+}
+
+fn vcatalogue() -> Vec<VEntry> {
+    macro_rules! e {
+        ($n:expr, $f:path, $a:expr) => {
+            VEntry { name: $n, run: $f, args: $a }
+        };
+    }
+    vec![
+        e!("scrypt.params_largest_legal_p", vcat::scrypt_params_max_p, &[1, 2, 3, 4, 5, 6, 7, 8, 9, 10, 11, 12, 13, 15, 16, 17, 31, 33, 100, 127, 1000, 65537, 1048577, 16777215]),
+        e!("scrypt.params_largest_legal_log_n", vcat::scrypt_params_max_log_n, &[1, 2, 3]),
+        e!("argon2.setters_in_range", vcat::argon2_setters_max, &[0, 1, 2, 3, 4, 5, 6]),
+        e!("hkdf.expand_exactly_255_blocks", vcat::hkdf_exact_limit, &[0, 1, 2]),
+        e!("blake2.smallest_and_largest_sizes", vcat::blake2_limits, &[0, 1, 2, 3, 4, 5, 6, 7]),
+        e!("poly1305.raw_result_buffer_at_least_16", vcat::poly_raw_result_sizes, &[16, 17, 32, 64]),
+        e!("x25519.try_from_32_bytes", vcat::x25519_try_from_32, &[0, 9, 255]),
+        e!("empty_inputs", vcat::empty_inputs, &[0, 1, 2, 3, 4, 5]),
+    ]
+}
+
+static VALID_KINDS: std::sync::OnceLock<Vec<&'static str>> = std::sync::OnceLock::new();
+
+impl Scenario for ValidEdge {
+    fn name(&self) -> &'static str {
+        "validedge"
+    }
+    fn kinds(&self) -> &'static [&'static str] {
+        VALID_KINDS.get_or_init(|| vcatalogue().iter().map(|e| e.name).collect())
+    }
+    fn nontrivial_kind(&self, _k: u8) -> bool {
+        true
+    }
+    fn real_vs_stub(&self) -> &'static str {
+        "real: the entry points named in the catalogue, called exactly on the legal side of each documented limit; stub: scheduler/PRNG"
+    }
+    fn cover_rule(&self) -> &'static str {
+        "(catalogue entry, argument) pairs executed"
+    }
+    fn generate(&self, rng: &mut Rng, _idx: u64, _tier: Tier) -> Trace {
+        let mut t = Trace::new("validedge", "catalogue");
+        for (k, e) in vcatalogue().iter().enumerate() {
+            for a in e.args {
+                t.ops.push(Op::new(0, k as u8).arg(*a).seed(rng.next_u64() >> 1));
+            }
+        }
+        t
+    }
+    fn execute(&self, t: &Trace, obs: &mut Obs) -> Result<(), Violation> {
+        let cat = vcatalogue();
+        for (i, op) in t.ops.iter().enumerate() {
+            let e = match cat.get(op.k as usize) {
+                Some(e) => e,
+                None => continue,
+            };
+            obs.begin_op(i);
+            obs.cov(((op.k as u32) << 16) | (op.arg as u32 & 0xffff));
+            let (a, h) = (op.arg, op.seed);
+            let run = e.run;
+            match guarded(move || run(a, h)) {
+                Ok(out) => {
+                    obs.hit("observed.returned_normally");
+                    obs.out(&out);
+                }
+                Err(m) => {
+                    return Err(Violation::new("unexpected-panic", i, "returns normally (argument on the legal side of the documented limit)", m, format!("{} (arg {})", e.name, op.arg)));
+                }
+            }
+        }
+        Ok(())
+    }
+}
+
 // ------------------------------------------------------------------ misuse
 
 pub struct Misuse;
@@ -570,7 +801,7 @@ mod cat {
             }
         };
     }
-    rounds_entries!(0, 1, 7, 10, 19, 21, 24);
+    rounds_entries!(0, 1, 2, 3, 4, 5, 6, 7, 9, 10, 11, 13, 14, 15, 16, 17, 18, 19, 21, 22, 23, 24, 32, 40, 64);
 
     /// process with output one shorter (a=0) / one longer (a=1) than the input, after a valid history
     macro_rules! process_mismatch {
@@ -1010,7 +1241,7 @@ mod cat {
 }
 
 const KEYLENS: &[u64] = &[0, 1, 15, 17, 24, 31, 33, 64];
-const BADROUNDS: &[u64] = &[0, 1, 7, 10, 19, 21, 24];
+const BADROUNDS: &[u64] = &[0, 1, 2, 3, 4, 5, 6, 7, 9, 10, 11, 13, 14, 15, 16, 17, 18, 19, 21, 22, 23, 24, 32, 40, 64];
 const TWO: &[u64] = &[0, 1];
 const ONE: &[u64] = &[0];
 
